@@ -1,64 +1,189 @@
 """Property -> rules, floors, texts.  Rules are looked up lazily so a property only runs what it needs."""
 import importlib
+import json
+import os
 
 RULES = {
-    # rule id: (module, function, needs)   needs: 'default' -> Facts(default); 'all' -> dict of Facts
+    # rule id: (module, function, needs)   needs: 'default' -> Facts(default); 'all' -> dict of Facts by config
     'R-G': ('r_guard', 'rule_G', 'default'),
     'R-SIB': ('r_guard', 'rule_SIB', 'default'),
     'R-TW': ('r_guard', 'rule_TW', 'default'),
     'R-UNS': ('r_guard', 'rule_UNS', 'default'),
+    'R-E': ('r_state', 'rule_E', 'default'),
+    'R-O': ('r_arith', 'rule_O', 'default'),
+    'R-W': ('r_arith', 'rule_W', 'default'),
+    'R-DA': ('r_debug', 'rule_DA', 'default'),
+    'R-DBG': ('r_debug', 'rule_DBG', 'all'),
+    'R-SER': ('r_types', 'rule_SER', 'default'),
+    'R-AUTO': ('r_types', 'rule_AUTO', 'default'),
+    'R-BOX': ('r_types', 'rule_BOX', 'default'),
+    'R-EFF': ('r_effects', 'rule_EFF', 'default'),
+    'R-PF': ('r_effects', 'rule_PF', 'all'),
+    'R-IT': ('r_misc', 'rule_IT', 'default'),
+    'R-NON': ('r_misc', 'rule_NON', 'default'),
+    'R-MSK': ('r_misc', 'rule_MSK', 'default'),
+    'R-DAR': ('r_misc', 'rule_DAR', 'default'),
+    'R-LVL': ('r_misc', 'rule_LVL', 'default'),
+    'R-DEL': ('r_misc', 'rule_DEL', 'default'),
+    'R-SPC': ('r_misc', 'rule_SPC', 'default'),
+    'R-LAY': ('r_layout', 'rule_LAY', 'default'),
+    'R-TAB': ('r_layout', 'rule_TAB', 'default'),
 }
 
 _cache = {}
 
 
 def run_rule(rule, facts, tier):
-    if rule in _cache:
-        return _cache[rule]
+    key = (rule, id(facts))
+    if key in _cache:
+        return _cache[key]
     mod, fn, needs = RULES[rule]
     m = importlib.import_module('qlint.' + mod)
     f = getattr(m, fn)
-    if needs == 'default':
-        res = f(facts['default'])
-    else:
-        res = f(facts)
-    _cache[rule] = res
+    res = f(facts['default']) if needs == 'default' else f(facts)
+    _cache[key] = res
     return res
 
 
 def thorough_extras(prop, facts, repo):
-    return [], {}
+    try:
+        from . import thorough
+    except ImportError:
+        return [], {}
+    return thorough.extras(prop, facts, repo)
 
 
 COMMON_ASSUMPTIONS = [
-    'rustc (MIR construction, trait solving, layout), std (Vec/slice bounds checks, Option) are trusted',
-    'only the lib target of crate qwt on the host target triple is analysed (configs default, nofeat, rel)',
-    'generic code is analysed once, generically; trait calls on type parameters resolve to every impl in the crate',
+    'rustc (MIR construction, trait solving, layout, const evaluation) and std (Vec/slice bounds checks, Option) are trusted',
+    'only the lib target of crate qwt on the host target triple is analysed, in configurations default, nofeat (no prefetch feature) and rel (no debug assertions, no overflow checks)',
+    'generic code is analysed once, generically; trait calls on type parameters resolve to every impl of an exported type in the crate',
+    'non-empty construction sets every nullable field non-null, so a non-emptiness test on one field protects accesses that rely on another (confirmed by reading each constructor)',
 ]
 
-G_TEXT = ('R-G: for every checked query method in the contract table (taken from the trait docs in src/lib.rs) and every '
-          'const-generic specialisation, every accepting return (Some(..) / delegation) must be dominated by branch '
-          'conditions containing the contract atom for each argument: index P<LEN, prefix P<=LEN, sym3 P<=3, symT P<=stored '
-          'largest symbol, coded idx(P)<len(table) and table[idx].len!=0, occ P<count. LEN is the summary of the type\'s own '
-          'len(). debug_assert conditions are not validation. ')
-SIB_TEXT = ('R-SIB: sibling methods (rank / rank_prefetch / select of one tree; rank/select/occs/occs_smaller of RSQVector; '
-            'same-named readers of BitVector and BitVectorMut) must accept an argument under the same set of atoms. ')
+TEXT = {
+    'R-G': 'R-G: for every checked query in the contract table (trait docs in src/lib.rs) and every const-generic specialisation, every accepting '
+           'return (Some(..) / delegation) is dominated by the contract atom of each argument: index P<LEN, prefix P<=LEN, sym3 P<=3, symT P<=stored '
+           'largest symbol, coded idx(P)<len(table) & table[idx].len!=0, occ P<count; LEN = summary of the type\'s own len(); debug_assert is not validation.',
+    'R-SIB': 'R-SIB: sibling methods (rank/rank_prefetch/select of a tree; rank/select/occs/occs_smaller of RSQVector; same-named readers of '
+             'BitVector/BitVectorMut, RSNarrow/RSWide) accept an argument under the same atoms.',
+    'R-TW': 'R-TW: each m / m_unchecked pair has one of the shapes Some(m_unchecked(same args)) / unwrap(m(same args)) / shared helper / same-component delegation; '
+            'rank0 defaults are i - rank1(i).',
+    'R-UNS': 'R-UNS: every function named *_unchecked is `unsafe fn`.',
+    'R-E': 'R-E: from every safe exported method of a struct with a derived Default, along the crate call graph, each unsigned `nullable - k`, '
+           'unwrap of a nullable Option field and unchecked/constant index into a nullable slice is dominated by a non-emptiness atom.',
+    'R-O': 'R-O: Add/Mul/Sub-const/Shl on a value tainted by an integer argument of a safe exported method needs a dominating bound on that argument '
+           '(flow-insensitive taint, followed 3 calls deep; documented-panic mutators and capacity constructors exempt by table).',
+    'R-W': 'R-W: in code generic over the element type T: no shift of a narrowed T by a level-dependent amount (w1), no raw symbol carried in a fixed '
+           'width integer (w2), no result rebuilt from a fixed-width accumulator (w3), no truncating index into the Huffman code table in the validity test (w2i).',
+    'R-DA': 'R-DA: every debug_assert atom in an unchecked path equals or follows from the documented precondition (contract table + accept condition '
+            'of the checked twin); negation of a conjunct or an extra constraint on an argument is a violation.',
+    'R-DBG': 'R-DBG: configurations default (debug assertions, overflow checks) and rel (neither) contain the same functions calling the same callees '
+             'once debug_assert!-expanded code is removed; no cfg!(..) branch outside assertion macros.',
+    'R-SER': 'R-SER: every ADT in the field-containment closure of the public structures implements Serialize/Deserialize/PartialEq/Clone and the impl '
+             'bodies cover every field (serialize_field names, next_element count, projections in eq/clone); field types are in the round-trippable set.',
+    'R-AUTO': 'R-AUTO: no field in that closure holds a raw pointer, reference, UnsafeCell/Cell/RefCell/atomic/lock or Rc; no hand-written or negative Send/Sync impl; no static mut.',
+    'R-BOX': 'R-BOX: O(n) payload fields are Box<[T]> or a Vec that the constructor shrinks.',
+    'R-EFF': 'R-EFF: on the call-graph closure of every &self method of the immutable structures: no assignment through a raw pointer or shared reference, '
+             'no ptr::write/copy/swap/transmute/atomic/Cell/lock callee; immutable structures expose no &mut self method.',
+    'R-PF': 'R-PF: (a) rank_prefetch_unchecked returns exactly rank_unchecked(self, symbol, i); (b) prefetch_read_NTA only uses wrapping pointer arithmetic and '
+            'the prefetch intrinsic, returns (); (c) prefetch_* position arguments only feed arithmetic and prefetch calls; (d) MIR bodies are identical with and '
+            'without feature `prefetch` except prefetch_read_NTA.',
+    'R-IT': 'R-IT: for every ExactSizeIterator: len() = bound - cursor; every cursor write in next/next_back is dominated by cursor < bound and moves by one; '
+            'WTIterator constructors start at (0, len()).',
+    'R-NON': 'R-NON / R-CONV: a BitVectorMut mutator that overwrites existing bits updates n_ones depending on a read of the old content; both From conversions move all fields name-for-name.',
+    'R-MSK': 'R-MSK: values OR-ed into the two bit planes of a quad line are structurally one bit wide (mask before write); push step = 1 << len() shift; in-line position = (position >> 1) & 255; extend pushes as_() of every element.',
+    'R-DAR': 'R-DAR: the reader indexes subblock_inventory with i/D and block_inventory with i/B; every writer branch appends a number of subblock entries that is a function of D; '
+             'the u16 store is dominated by span < C <= 2^16; groups are flushed at len == B.',
+    'R-LVL': 'R-LVL: in the Huffman constructors the level write is dominated by shift <= code.len and the lengths passed to craft_wm_codes are the unmodified output of '
+             'Coding::from_frequencies*(BitsPerFragment(k)).code_lengths() with k = 2 (quad) / 1 (binary).',
+    'R-DEL': 'R-DEL: From<Vec>/FromIterator/new conversion paths return new()/from() of the whole input passed through collection plumbing only.',
+    'R-SPC': 'R-SPC: every heap-bearing field flows into the value returned by space_usage_byte() (backward slice); Vec counts capacity; KiB/MiB/GiB divide by 1024^k.',
+    'R-LAY': 'R-LAY: (a) DataLine / SuperblockPlain are 64 bytes, align 64, and the raw u64 view uses size/8 words; (b) packed counters: writer step = reader step = mask width, '
+             'fields fit below the absolute counter, 2^w > largest in-block count; (c) hint periods exceed block sizes, duplicated constants agree; computed relative overheads stay under the stated bounds.',
+    'R-TAB': 'R-TAB: the compiler-evaluated K_SELECT_IN_BYTE is compared with its definition for all 2048 entries (exhaustive).',
+}
 
 PROPERTIES = {}
+NOT_APPLICABLE = {}
 
 
-def _p(pid, rules, level, rule_text, explanation, floors=None, not_decided='', assumptions=None, trusted_base=None):
+def _p(pid, rules, level, explanation, not_decided='', assumptions=None, trusted_base=None):
     PROPERTIES[pid] = {
-        'rules': rules, 'level': level, 'rule_text': rule_text, 'explanation': explanation,
-        'floors': floors or {}, 'not_decided': not_decided,
+        'rules': rules, 'level': level, 'rule_text': ' '.join(TEXT[r] for r in rules), 'explanation': explanation,
+        'floors': {}, 'not_decided': not_decided,
         'assumptions': COMMON_ASSUMPTIONS + (assumptions or []),
         'trusted_base': trusted_base or [],
     }
 
 
-_p('C01', ['R-G', 'R-SIB'], 'other', G_TEXT + SIB_TEXT,
-   'Static analysis of MIR facts of the current tree: decides the validation clauses of QWaveletTree '
-   '(get/rank/rank_prefetch/select) -- necessary conditions of the property, not the input/output behaviour.',
-   floors={'R-G': 6, 'R-SIB': 5},
-   not_decided='that ranks/offsets compose to the right count and position; sigma/n_levels arithmetic; stable partition')
-NOT_APPLICABLE = {}
+EXPL = ('Static analysis of the type-checked program (MIR, ADT/impl metadata, evaluated constants) of the current tree in three build '
+        'configurations. Decides the structural clauses listed under `rule` -- necessary conditions of the property that are visible in the shape '
+        'of the code on every path -- and NOT the input/output behaviour, which quantifies over runtime values. ')
+
+_p('C01', ['R-G', 'R-SIB', 'R-E', 'R-O', 'R-W', 'R-TW', 'R-DEL', 'R-LAY'], 'other',
+   EXPL + 'C01: validation of QWaveletTree get/rank/rank_prefetch/select, empty/default state, argument arithmetic, symbol width in builder/partition/readers, construction paths.',
+   'that ranks/offsets compose to the right count and position across levels; sigma / n_levels arithmetic; that stable_partition_of_4 is a stable permutation')
+_p('C02', ['R-G', 'R-SIB', 'R-E', 'R-O', 'R-W', 'R-LVL', 'R-TW', 'R-DEL', 'R-LAY'], 'other',
+   EXPL + 'C02: validity test (symbol has a code) on rank/rank_prefetch/select, its width, empty state, level-write guard and provenance of code lengths, construction paths.',
+   'correctness of craft_wm_codes (prefix-freeness, ordering), independence from hash-map tie order, decode-table search, code lengths beyond 16 levels')
+_p('C03', ['R-G', 'R-SIB', 'R-E', 'R-O', 'R-W', 'R-LVL', 'R-TW', 'R-DEL', 'R-LAY'], 'other',
+   EXPL + 'C03: validation of WT/HWT get/rank/select in both specialisations, symbol carried in the element type, empty state, level-write guard, construction paths.',
+   'wavelet-matrix arithmetic, binwt::craft_wm_codes table bounds for degenerate alphabets (loop-carried indices), tie orders')
+_p('C04', ['R-G', 'R-E', 'R-O', 'R-UNS', 'R-SIB', 'R-LAY', 'R-DA', 'R-DBG'], 'other',
+   EXPL + 'C04: every unchecked access is behind the documented guard, empty/default states reach no trap, argument arithmetic is bounded, unchecked API is unsafe, '
+   'raw views match layouts.',
+   'index arithmetic inside search loops (select_block, select*_subblock, block_predecessor, DArray word scan: sentinel invariants over stored data), CPU feature of _popcnt64, allocation failure')
+_p('C05', ['R-G', 'R-SIB', 'R-E', 'R-TW', 'R-LAY', 'R-DEL', 'R-DA'], 'other',
+   EXPL + 'C05: validation of RSQVector get/rank/select/occs/occs_smaller, packed superblock record (writer/reader agreement), sampling constants, twins.',
+   'counter contents, the sampled search, in-block select, per-symbol totals being prefix sums')
+_p('C06', ['R-G', 'R-SIB', 'R-E', 'R-TW', 'R-LAY', 'R-DEL'], 'other',
+   EXPL + 'C06: validation of RSNarrow/RSWide get/rank1/select1/select0, rank0 = i - rank1, empty state, packed counters and hint periods.',
+   'counter construction and the hint/linear search')
+_p('C07', ['R-DAR', 'R-G', 'R-E', 'R-TW', 'R-DEL', 'R-LAY'], 'other',
+   EXPL + 'C07: writer/reader agreement on the shared inventories, the u16 narrowing bound, flush trigger, select guards, default state.',
+   'the word scan and sign-encoded pointers')
+_p('C08', ['R-SIB', 'R-NON', 'R-O', 'R-G', 'R-TW', 'R-LAY', 'R-E'], 'other',
+   EXPL + 'C08: BitVector vs BitVectorMut readers validate identically, cached population count depends on overwritten bits, conversions move every field, get_bits arithmetic.',
+   'bit-level effect of set_symbol, word reads and position iterators over arbitrary histories')
+_p('C09', ['R-PF', 'R-EFF', 'R-SIB', 'R-LAY'], 'other',
+   EXPL + 'C09: rank_prefetch validates like rank and returns exactly rank_unchecked on the untouched arguments; prefetch addresses use wrapping arithmetic and only reach the '
+   'intrinsic; positions feed only hints; bodies are feature-independent.',
+   'that the estimates stay within the next level where they are re-used as arguments of approx_rank_unchecked / rank_block_unchecked (an invariant over data)')
+_p('C10', ['R-TW', 'R-DA', 'R-DBG', 'R-G', 'R-UNS'], 'other',
+   EXPL + 'C10: twin shapes make checked and unchecked values equal by construction; debug assertions equal the documented precondition; build profiles differ only by assertions.',
+   'whether the shared unchecked body is itself correct (C01-C08)')
+_p('C11', ['R-SER', 'R-AUTO', 'R-EFF'], 'proof',
+   'Proof by construction modulo the trusted derives: obligations = per ADT in the containment closure {impls present, every field serialized, deserialized, compared, cloned, '
+   'field types round-trippable}; discharged by reading the MIR of the (derived or hand-written) impl bodies of the current tree. Equal fields => equal value and (queries being pure '
+   'functions of the fields, R-EFF) identical answers.',
+   'bincode\'s own behaviour on these types, platform usize width',
+   trusted_base=['rustc', 'serde_derive (generated code is inspected, its semantics trusted)', 'serde', 'bincode 1.3.3'])
+_p('C12', ['R-IT'], 'other', EXPL + 'C12: cursor discipline of every ExactSizeIterator; WTIterator template facts from which in-order / reverse-order / exact-length follow by induction.',
+   'that get_unchecked(k) returns S[k] (C01-C03); BitVectorBitPositionsIter word scanning')
+_p('C13', ['R-MSK', 'R-G', 'R-TW', 'R-DEL', 'R-LAY', 'R-E'], 'other',
+   EXPL + 'C13: two-bit truncation precedes the write, factor-2 agreement of push/len/get, extend pushes every element, get validation.',
+   'bit placement inside the line for all 256 positions')
+_p('C14', ['R-LAY', 'R-BOX'], 'other', EXPL + 'C14: layouts and constants from which the relative overheads are computed and compared with the stated bounds; payload fields have no slack.',
+   'the level-count formula and allocation totals for all n (loop trip counts)')
+_p('C15', ['R-LVL'], 'other', EXPL + 'C15: levels hold only live codes; optimal lengths used unmodified with the right fragment width.',
+   'the numeric bounds n(H0+2), n(H0+1): they follow from Huffman optimality (trusted crate minimum_redundancy) given the decided clauses')
+_p('C16', ['R-SPC'], 'other', EXPL + 'C16: every heap-bearing component is accounted; Vec counts capacity; scaled variants divide by 1024^k.',
+   'closeness in percent; Huffman table constants')
+_p('C17', ['R-TAB', 'R-W'], 'other', EXPL + 'C17: the in-byte select table is checked exhaustively (2048 entries) against its definition; partitions shift in the element type.',
+   'broadword arithmetic of select_in_word(_u128) for all words, popcnt_wide, msb, permutation/stability of partitions, text_remap (numeric facts over all inputs)')
+_p('C18', ['R-AUTO', 'R-EFF', 'R-UNS'], 'proof',
+   'Obligations = per field of the containment closure {no interior mutability / raw pointer / shared-ownership type}, per &self query method {no write effect on its call-graph closure}, '
+   'per *_unchecked fn {unsafe}. With them rustc\'s auto traits give Send+Sync (also discharged by the type checker on concrete instantiations in the thorough tier witness crate) and '
+   'data-race freedom / interleaving independence follow from Sync + no write through shared references.',
+   'nothing structural; dynamic stress is a different family', trusted_base=['rustc auto-trait and aliasing rules', 'std'])
+_p('C19', ['R-DEL', 'R-W', 'R-SER', 'R-NON'], 'other',
+   EXPL + 'C19: construction paths delegate to new()/from() on the whole input; no width-dependent narrowing; derived Clone/PartialEq cover every field.',
+   'injectivity of the encoding (different sequences never equal), equality of answers across Huffman tie orders')
+
+# floors: instance counts measured on the tree after the accepted repairs and confirmed by reading the
+# lists (engine/floors.json is committed; a rule that matches fewer instances fails closed)
+_fp = os.path.join(os.path.dirname(os.path.abspath(__file__)), '..', 'floors.json')
+if os.path.exists(_fp):
+    for pid, fl in json.load(open(_fp)).items():
+        if pid in PROPERTIES:
+            PROPERTIES[pid]['floors'] = fl
